@@ -398,7 +398,9 @@ def diagram_holds(expr, dim, rng):
     try:
         q = Quantity(expr.subs(sub))
     except Exception as e:  # pylint: disable=broad-except
-        if "Dimension of" in str(e) or "should be" in str(e):
+        # only dimension refusals count; "should be an expression made of numbers and quantities" means SymPy could not evaluate
+        # the substituted value numerically (exp(exp(8.6e11))): no verdict
+        if "Dimension of" in str(e) or "but it should be" in str(e):
             return f"Quantity() raised {type(e).__name__}: {e}"[:200]
         return None   # SymPy refused the concrete values (e.g. Min/Max of a complex number): no verdict
     if is_any_dimension(q.scale_factor):
